@@ -123,6 +123,11 @@ func execDirectFunction(vm *r.VM, funcName *r.IDName, params []r.Element) (r.Ele
 	if fnModule := fn.GetModule(); fnModule != nil {
 		module = fnModule
 	}
+	// (a built-in method held by a name that belongs to no module at all: the names bound by
+	// an input-variable text)
+	if module == nil {
+		module = r.NativeCodeModule
+	}
 
 	// pushCallFrame
 	fnCallFrame := r.NewFunctionCallFrame(module, nil)
